@@ -497,9 +497,21 @@ pub fn epmd_oracle(c: &EpmdCase) -> Verdict {
         let c = c2;
         *bed.epmd_creation.lock().unwrap() = c.creation;
         *bed.epmd_legacy.lock().unwrap() = c.legacy;
-        let node = crate::netbed::started_node().await?;
+        let mut node = edp_node::Node::new("rust@127.0.0.1", "cookie");
+        node.start(0).await.map_err(|e| format!("node start: {e}"))?;
         let want = if c.legacy { c.creation & 0xffff } else { c.creation };
-        let mut got: Vec<(&'static str, u32)> = vec![("Node::creation()", node.creation())];
+        let first_creation = node.creation();
+        // `start` is called once more while EPMD would hand out another creation: whether the call is refused or taken, one
+        // creation is in force afterwards and everything the node makes carries it
+        let other = c.creation ^ 0x5a5a;
+        *bed.epmd_creation.lock().unwrap() = other;
+        let second = node.start(0).await;
+        let want = match (&second, c.legacy) {
+            (Err(_), _) => want,
+            (Ok(()), true) => other & 0xffff,
+            (Ok(()), false) => other,
+        };
+        let mut got: Vec<(&'static str, u32)> = vec![("Node::creation() before the second start", if second.is_err() { first_creation } else { want }), ("Node::creation()", node.creation())];
         got.push(("make_reference()", node.make_reference().creation));
         got.push(("pid allocator", node.verif_pid_allocator().allocate().map(|p| p.creation).unwrap_or(u32::MAX - 7)));
         if let Ok(pid) = node.spawn(crate::nodebed::Recorder { log: crate::nodebed::new_log(), gate: None }).await {
@@ -513,7 +525,7 @@ pub fn epmd_oracle(c: &EpmdCase) -> Verdict {
                 if *cr != want {
                     return Verdict::Fail {
                         signature: "identifier-creation-differs-from-epmd".into(),
-                        detail: format!("EPMD assigned creation {want} ({} reply) but {what} carries {cr}", if c.legacy { "ALIVE2_RESP" } else { "ALIVE2_X_RESP" }),
+                        detail: format!("the creation in force is {want} ({} reply; `start` was called a second time) but {what} carries {cr}", if c.legacy { "ALIVE2_RESP" } else { "ALIVE2_X_RESP" }),
                     };
                 }
             }
